@@ -48,7 +48,11 @@ META = dict(
          "builder's current one while the line is parsed), a later one, the own name, the previous framer's last frame, and the "
          "inline form, with inode-relative lines (put, need, do via per); and a moot framer naming itself (`x of framer <moot>`, "
          "inline, `x of frame F of framer <moot>`, `do .. via nd of framer <moot>`) cloned as two named and one insular clone: all "
-         "clones must address the moot's own shared node; exact oracle plus the renaming oracle for every name.",
+         "clones must address the moot's own shared node; exact oracle plus the renaming oracle for every name.  Anchored-inode "
+         "family: main framer `via base` whose main frame (or the frame over it) has an absolute (`.abs.`) or framer-relative "
+         "(`spot of framer me`, `spot of framer`, `spot of framer wfa`) via, a clone with empty / relative / me-relative via, and "
+         "inherited references in the clone (plain, `x of me`, doer ioinits): the anchored inode ends the walk (the main framer's "
+         "via is not prepended), the path is fully resolved (no empty segment, no literal me/main), and follows every renaming.",
     note="Inode prefixes are name-free, so oracle 2 is exact about names but says nothing about the literal inode segments; "
          "their layout is only checked for renaming invariance (oracle 1).  `as mine` insular clones (generated tags) and the "
          "`do .. as name via/per` parsing defect of C15 are avoided by writing `at enter` after the doer name.",
@@ -1075,6 +1079,110 @@ def check_explicit(real, addr, p, case):
     p.sample(dict(line=line, via=(a[2] if kind == "via" else None), resolved=got), limit=2)
 
 
+# ----------------------------------------------------------------------------- clone under an anchored main-frame inode
+#
+# A main framer with its own via (`base`) holds a frame whose inode -- or that of a frame over it -- is ANCHORED: absolute
+# (`.abs.`) or framer-relative (`spot of framer me`, `spot of framer`, `spot of framer wfa`).  A clone hung under that frame
+# (empty / relative / me-relative via) inherits the context: an anchored inode ends the walk, the main framer's own via is
+# NOT put in front of it (resolvePath: "absolute: fparts[0] == '', framer relative: fparts[0] == 'framer'").
+
+AVIAS = [("absolute", ".abs.", ["abs"]), ("of-framer-me", "spot of framer me", None), ("of-framer", "spot of framer", None),
+         ("of-framer-name", "spot of framer wfa", ["framer", "wfa", "spot"]), ("relative (control)", "rel", ["base", "rel"])]
+ACVIAS = [("no-clone-via", "", []), ("relative-clone-via", "cv", ["cv"]), ("me-clone-via", "me.ca", None)]
+ALINES = [("put-plain", "put 1 into pl.x", "parm:destination", ["pl", "x"]),
+          ("put-of-me", "put 1 into x of me", "parm:destination", ["x"]),
+          ("do-per", "do lit as dxa at enter per v z", "attr:v", ["z"]),
+          ("do-via-per", "do lit as dxa at enter via cop per v z", "attr:v", ["cop", "z"])]
+AENTS = ["wfa", "wfd", "tgc", "hra", "hro", "hrd", ACTOR]
+
+
+def anchored_program(rv, cv, over, line):
+    src = ["house h", "framer wfa be active first hra via base"]
+    if over:
+        src += ["frame hro via " + rv, "frame hra in hro via sub"]
+    else:
+        src += ["frame hra via " + rv]
+    src += ["  aux wfd as tgc" + ((" via " + cv) if cv else ""), "framer wfd be moot first hrd", "frame hrd", "  " + line, ""]
+    return "\n".join(src)
+
+
+def anchored_cases(tier):
+    return [(av, over, cv, al) for av in AVIAS for over in (False, True) for cv in ACVIAS for al in ALINES]
+
+
+def check_anchored(real, addr, p, case):
+    (aid, rv, anchor), over, (cid, cv, cvparts), (lid, line, key, tail) = case
+    text = anchored_program(rv, cv, over, line)
+    tag = "anchored|%s|%s|%s|%s" % (aid, "over-frame" if over else "main-frame", cid, lid)
+    rep = dict(script=text, line=line,
+               how="build with ioflo.base.building.Builder; the clone wfa_tgc's act parameter / doer attribute holds the resolved "
+                   "Share; an absolute or framer-relative inode on the main frame (or a frame over it) anchors the inherited path")
+    orig = observe(real, addr, text)
+    p.evaluations += 1
+    if orig[0] != "ok":
+        p.violation("%s|refused" % tag, line, "could not be built: %s" % orig[3], rep)
+        return
+    mine = [v[0].split(" ", 1)[1] for kk, v in sorted(orig[1].items()) if v[1] == line and kk.split("/")[-1] == key]
+    if len(mine) != 1:
+        p.violation("%s|no-reference-found" % tag, line, "expected one reference of the clone, found %r" % (mine,), rep)
+        return
+    p.nontrivial(tag)
+    p.outcome("anchored inode: built")
+    path = mine[0]
+    segs = path.split(".")
+    p.evaluations += 1
+    # every resolved path is fully resolved: no empty segment, no relation keyword left unsubstituted
+    bad = [i for i, sg in enumerate(segs) if sg == "" or (sg in ("me", "main") and i and segs[i - 1] in ("framer", "frame", "actor"))]
+    if bad:
+        p.violation("%s|unresolved-segments" % tag, line,
+                    "`%s` in clone wfa_tgc resolves to %s: empty segment or unsubstituted me/main keyword" % (line, path),
+                    dict(rep, resolved=path))
+    else:
+        if cvparts is None:                      # me-relative clone via: directly under the main framer's inode
+            wants = [["base", "ca"] + tail]
+        else:
+            mid = (["sub"] if over else []) + cvparts + tail
+            if anchor is None:                   # `of framer [me]` seen from the clone: the docs do not say whose `me`
+                wants = [["framer", "wfa_tgc", "spot"] + mid, ["framer", "wfa", "spot"] + mid]
+            else:
+                wants = [anchor + mid]
+        if segs not in wants:
+            p.violation("%s|wrong-path" % tag, line,
+                        "`%s` in clone wfa_tgc (main frame via `%s`%s, clone via `%s`) resolves to %s, expected %s" % (
+                            line, rv, " on the frame over it" if over else "", cv, path, " or ".join(".".join(w) for w in wants)),
+                        dict(rep, resolved=path, expected=[".".join(w) for w in wants]))
+    for old in AENTS:
+        if old == "hro" and not over:
+            continue
+        rtext = rename_text(text, old, FRESH)
+        ren = observe(real, addr, rtext)
+        p.evaluations += 1
+        where_ = "rename %s" % old
+        rrep = dict(rep, renamed_script=rtext, rename=[old, FRESH])
+        if ren[0] != "ok":
+            p.violation("%s|build-outcome-depends-on-name" % tag, where_, "after renaming %s the build is refused: %s" % (old, ren[3]), rrep)
+            continue
+        exp_refs = dict((kk, rename_path(v[0], old, FRESH)) for kk, v in orig[1].items())
+        got_refs = dict((kk, v[0]) for kk, v in ren[1].items())
+        if exp_refs != got_refs:
+            diff = [(kk, orig[1].get(kk, ("-",))[0], exp_refs.get(kk), got_refs.get(kk))
+                    for kk in sorted(set(exp_refs) | set(got_refs)) if exp_refs.get(kk) != got_refs.get(kk)]
+            kk, o, e, g = diff[0]
+            p.violation("%s|renamed-map-differs" % tag, where_,
+                        "`%s`: renaming %s -> %s: reference %s resolved to %s before, expected %s after, got %s" % (
+                            line, old, FRESH, kk, o, e, g), dict(rrep, differences=diff[:8]))
+            continue
+        exp_names = sorted(rename_path(nm, old, FRESH) for nm in orig[2])
+        if exp_names != ren[2]:
+            x, y = set(exp_names), set(ren[2])
+            p.violation("%s|renamed-store-differs" % tag, where_, "renaming %s: store shares missing %s, unexpected %s" % (
+                old, sorted(x - y)[:4], sorted(y - x)[:4]), dict(rrep, missing=sorted(x - y), unexpected=sorted(y - x)))
+            continue
+        p.outcome("anchored rename: %s" % ("line path renamed" if rename_path(path, old, FRESH) != path else "line path unaffected"))
+    if (len(p.keys) % 37) == 1:
+        p.sample(dict(main_frame_via=rv, over=over, clone_via=cv, line=line, resolved=path))
+
+
 BASE = {}
 
 
@@ -1208,9 +1316,12 @@ def work(arg):
     elif kind == "kw":
         for case in kw_cases(tier)[start:stop]:
             check_kw(real, addr, p, case)
-    else:
+    elif kind == "explicit":
         for case in explicit_cases(tier)[start:stop]:
             check_explicit(real, addr, p, case)
+    else:
+        for case in anchored_cases(tier)[start:stop]:
+            check_anchored(real, addr, p, case)
     return p
 
 
@@ -1277,6 +1388,12 @@ def replay(path):
                     hit = "insular"
                     break
         if hit is None:
+            for case in anchored_cases("thorough"):
+                if anchored_program(case[0][1], case[2][1], case[1], case[3][1]) == script:
+                    check_anchored(real, addr, p, case)
+                    hit = "insular"
+                    break
+        if hit is None:
             for case in explicit_cases("thorough"):
                 t = xvia_program(case[1][1], case[1][2], case[1][3], case[2][1]) if case[0] == "via" else xself_program(case[1][1])
                 if t == script:
@@ -1333,8 +1450,11 @@ def run():
     items += [("kw", i, i + CHUNK, core.TIER) for i in range(0, len(ck_), CHUNK)]
     cx = explicit_cases(core.TIER)
     items += [("explicit", i, i + 6, core.TIER) for i in range(0, len(cx), 6)]
+    cv_ = anchored_cases(core.TIER)
+    items += [("anchored", i, i + 12, core.TIER) for i in range(0, len(cv_), 12)]
     ck.merge(core.pmap(work, items))
-    ck.coverage_extra = dict(programs=len(cs), renamings_per_program=len(ENTITIES), collision_programs=len(cc), insular_programs=len(ci), actor_name_programs=len(ca), nested_clone_programs=len(cn), keyword_affix_programs=len(ck_), explicit_name_programs=len(cx),
+    ck.coverage_extra = dict(programs=len(cs), renamings_per_program=len(ENTITIES), collision_programs=len(cc), insular_programs=len(ci), actor_name_programs=len(ca), nested_clone_programs=len(cn), keyword_affix_programs=len(ck_), explicit_name_programs=len(cx), anchored_inode_programs=len(cv_),
+                             anchored_main_frame_vias=[x[1] for x in AVIAS], anchored_clone_vias=[x[1] for x in ACVIAS],
                              explicit_via_forms=[x[0] for x in XVIAS], explicit_self_forms=[x[0] for x in XSELF],
                              keyword_affix_names=KNAMES, keyword_affix_roles=KROLES,
                              nested_clone_tags=[t[0] for t in NTAGS], nested_clone_forms=[f[1] for f in NFORMS],
@@ -1353,7 +1473,10 @@ def run():
         "as a path segment comes from name substitution",
         "forms using `main` are only defined where a main frame exists at resolve time (named clones); elsewhere the build refuses "
         "them and only the name-independence of the refusal is checked",
-        "via inodes are name-free; for a relative `per` path under some via only renaming invariance is checked",
+        "via inodes are name-free except in the explicit-name and anchored-inode families; for a relative `per` path under some "
+        "via only renaming invariance is checked",
+        "`spot of framer me` on a main frame, seen from a clone hung under it: the documentation does not say whose `me`; both the "
+        "clone's and the main framer's name are accepted as the anchor (ioflo substitutes the clone's)",
         "a refused program (ParseError / ResolveError / internal exception) must be refused with the same exception class after "
         "any renaming",
     ]
